@@ -138,10 +138,12 @@ class Repo:
                     if t["k"] != "switch":
                         continue
                     d = tb.operand(t["discr"], bi, len(b.blocks[bi]["stmts"]))
-                    if d[0] == "call" and d[1].name in ("lt",) and len(d[2]) == 2:
-                        st = self.static_of(d[2][1])
-                        if st and strip(d[2][0]) == ("param", 1):
-                            info = {"modulus": st, "new": b, "guard_bb": bi}
+                    if d[0] == "call" and d[1].name in ("lt", "le", "gt", "ge") and len(d[2]) == 2:
+                        # any ordering test of the raw input against a static: the polarity is R-GUARD's business
+                        for x, y in ((d[2][0], d[2][1]), (d[2][1], d[2][0])):
+                            st = self.static_of(y)
+                            if st and strip(x) == ("param", 1):
+                                info = {"modulus": st, "new": b, "guard_bb": bi}
                 if info:
                     break
             if info:
